@@ -69,9 +69,12 @@ func (p *PolicyManager) UpdatePolicy(oldPolicy, newPolicy *networkv1.NetworkPoli
 }
 
 func (p *PolicyManager) DeletePolicy(policy *networkv1.NetworkPolicy) error {
-	// if a policy is deleted, we should first delete pod rules targeting this policy chain
+	// the caches may already hold policies whose add event is still to come: their chains have to exist before the pod
+	// chains jump to them. The chain of the deleted policy is kept (flushed) while a pod chain still jumps to it and is
+	// deleted once the pod chains have been rewritten
 	p.syncNetworkPolices()
-	p.syncPods()
 	p.syncNetworkPolicyRules()
+	p.syncPods()
+	p.deleteKeptPolicyChains()
 	return nil
 }
